@@ -95,6 +95,13 @@ func buildNetwork(r *rand.Rand, o genOpts) *genNet {
 		must(err)
 		g.types = append(g.types, t)
 	}
+	if r.Intn(3) == 0 {
+		// a clone is a definition of its own (own id, own references): the original and its renamed
+		// clone are both used by signals of the network
+		c := g.types[r.Intn(len(g.types))].Clone()
+		c.SetName(g.name(r, "type", o))
+		g.types = append(g.types, c)
+	}
 	for i := 0; i < 3; i++ {
 		un := g.name(r, "unit", o)
 		if o.manyEqual && i > 0 {
@@ -126,6 +133,16 @@ func buildNetwork(r *rand.Rand, o genOpts) *genNet {
 			must(e.SetMinSize(pick(r, 2, 4)))
 		}
 		g.enums = append(g.enums, e)
+	}
+	if r.Intn(3) == 0 {
+		// clones of a unit and of an enum, renamed, used next to their originals
+		cu := g.units[r.Intn(len(g.units))].Clone()
+		cu.SetName(g.name(r, "unit", o))
+		g.units = append(g.units, cu)
+		if ce, err := g.enums[r.Intn(len(g.enums))].Clone(); err == nil {
+			ce.UpdateName(g.name(r, "enum", o))
+			g.enums = append(g.enums, ce)
+		}
 	}
 	// attributes of all four types
 	g.attrs = append(g.attrs, acmelib.NewStringAttribute(g.name(r, "astr", o), "dflt"))
